@@ -13,6 +13,7 @@ Models: Emboss/Model/Names.lean, StaticAsserts.lean, CppInt.lean (+ Enum.lean fo
 import Emboss.Lemmas.StaticAsserts
 import Emboss.Lemmas.EnumGen
 import Emboss.Lemmas.Names
+import Emboss.Lemmas.NamesScan
 import Emboss.Model.Names
 import Emboss.Model.EnableIfs
 import Emboss.Generated.CppReserved
@@ -420,6 +421,30 @@ theorem C07_namespace_components (rw : List String) (text : List Char) (cs : Lis
       rw [hf] at this
       cases this
     · cases h
+
+/-- **Every text of the documented shape is accepted, with exactly its identifiers**
+(completeness; with `C07_namespace_components` the scanner is characterised): blanks `w0`, an
+optional `::` followed by blanks, an identifier, blanks, then any number of `:: blanks
+identifier blanks` — whatever the blanks (any `str.isspace()` character), provided no component is
+a reserved word. -/
+theorem C07_namespace_text_complete (rw : List String) (w0 : List Char) (lead : Option (List Char))
+    (n : Name) (w2 : List Char) (rest : List (List Char × Name × List Char))
+    (h0 : w0.all Emboss.Enum.isSpace = true) (hl : ∀ w1, lead = some w1 → w1.all Emboss.Enum.isSpace = true)
+    (hn : IsIdent n) (h2 : w2.all Emboss.Enum.isSpace = true)
+    (hr : ∀ p ∈ rest, p.1.all Emboss.Enum.isSpace = true ∧ IsIdent p.2.1 ∧ p.2.2.all Emboss.Enum.isSpace = true)
+    (hk : ∀ c ∈ n :: rest.map (·.2.1), String.ofList c ∉ rw) :
+    verifyNamespace rw (w0 ++ nsLead lead ++ n ++ w2 ++ nsTail rest) = .ok (n :: rest.map (·.2.1)) := by
+  unfold verifyNamespace
+  rw [nsParse_complete w0 lead n w2 rest h0 hl hn h2 hr]
+  have : (n :: rest.map (·.2.1)).filter (fun c => rw.contains (String.ofList c)) = [] := by
+    rw [List.filter_eq_nil_iff]
+    intro c hc
+    simpa using hk c hc
+  simp only [this]
+
+/-- Non-vacuity: `" :: a1 :: b::c_1\t"` is such a text. -/
+example : [' '] ++ nsLead (some [' ']) ++ s "a1" ++ [' '] ++ nsTail [([' '], s "b", []), ([], s "c_1", ['\t'])] =
+    " :: a1 :: b::c_1\t".toList := by decide
 
 /-- **Every C++17 keyword and alternative token is refused as a namespace component** — over the
 back end's own table, regenerated from `_CPP_RESERVED_WORDS` on every run. -/
